@@ -479,3 +479,24 @@ func pathsReachTheOSAsTheScriptGaveThem(c *core.Ctx) {
 	}
 	c.Stat("strings_handed_to_the_os", n)
 }
+
+// ---------------------------------------------------------------------------
+// importBodies: the functions of package importer in which a module is
+// imported: the Import methods, and the functions of the package that return
+// (*object.Module, error) like them (the body that two importers share).  The
+// rules of the importer family read all of them, and accept in one what it is
+// handed by another.
+func importBodies(p *core.Program) map[*ssa.Function]bool {
+	modT := core.MustType(p.Pkg("object"), "Module")
+	out := map[*ssa.Function]bool{}
+	for _, fn := range repoFns(p, "importer") {
+		if fn.Parent() != nil {
+			continue
+		}
+		res := fn.Signature.Results()
+		if res.Len() == 2 && core.NamedOf(res.At(0).Type()) == modT && isErrorType(res.At(1).Type()) {
+			out[fn] = true
+		}
+	}
+	return out
+}
